@@ -9,7 +9,7 @@ from ..runner import Outcome, Part
 
 ID = "C12"
 TITLE = "Flow split conserves mass and equalises subchannel pressure gradients"
-TECHNIQUE = "exhaustive enumeration of the 120 correlation triples x regime classes x spacer-grid options plus property-based sampling of geometries; own implementation of the Cheng-Todreas subchannel friction laws as oracle for the pressure-gradient equalisation"
+TECHNIQUE = "exhaustive enumeration of the 120 correlation triples x regime classes x spacer-grid options plus property-based sampling of geometries; own implementation of the Cheng-Todreas subchannel friction laws as oracle for the pressure-gradient equalisation, regions built directly and through clone(), split constants compared with the friction module of the split's own family"
 RULE = ("triples_regimes: every friction x flow-split x mixing combination the reader accepts (6 x 5 x 4 = 120) x Reynolds "
         "classes {laminar, at Re_bL, transition, at Re_bT, turbulent} x spacer grids {none, loss coefficient, REH, CDD} on a "
         "canonical 37-pin bundle - complete enumeration; ct_equalisation: hypothesis draws geometry (P/D 1.02-1.6, H/D 4-80, "
